@@ -57,7 +57,76 @@ def run_c05(ctx):
     return l1_both(ctx)
 
 
+def run_dbg(ctx):
+    return l1_both(ctx)
+
+
+DBG_ASSUME = COMMON_ASSUMPTIONS + [
+    "the reference debugger model (refdbg.rs) encodes the property texts; `step` on an instruction that changes PC accepts both documented readings (DESIGN.md section 3)",
+    "debugger sessions are driven through the public API (debugger::Options{command}) with stdin at end of file; the interactive terminal reader is covered by C20 only",
+]
+
 PROPS = {
+    "C09": {
+        "run": run_dbg,
+        "level": "exploration",
+        "design_ref": "DESIGN.md section 4 C09",
+        "level_text": "Differential runtime monitor: each generated terminating program is run plainly and under the debugger with a random script of execution-control/inspection commands (valid, boundary and malformed arguments) ending in quit or end of input; program output, consumed input, exit status and the complete final machine state must be identical. Sampled over programs and scripts.",
+        "level_note": "The plain run of the same build is the reference (C03 checks the plain run against the reference VM, so a common-mode error is not masked).",
+        "technique": "runtime monitoring: differential oracle (debugged vs plain run of the same image) over hooked final state, output and exit; checked + release builds",
+        "rule": "case = (structured program, script of non-mutating commands, separator, ending by quit/EOF); non-trivial = the debugger paused at least twice and more than one instruction ran; distinct = hash of source and script",
+        "assumptions": DBG_ASSUME,
+    },
+    "C10": {
+        "run": run_dbg,
+        "level": "exploration",
+        "design_ref": "DESIGN.md section 4 C10",
+        "level_text": "Lockstep runtime monitor against a reference debugger model: at every prompt the paused machine (registers, PC, CC, memory, instruction count, breakpoints, output) is compared with the model advanced by the same command prefix. Exhaustive over all scripts up to length 3 (quick) / 4 (thorough) of a 14-command alphabet on 12 fixed programs (loops, nested/recursive subroutines in both conventions, HALT in the middle, jumps out of user space, I/O, .break), plus random scripts on generated programs.",
+        "level_note": "Exhaustive only inside the stated script-length bound and fixed program set; the reference model is trusted.",
+        "technique": "runtime monitoring: online trace checking of prompt snapshots (hook at the debugger's read point) against an executable reference model; bounded-exhaustive scripts",
+        "rule": "case = (program, command script); non-trivial = at least one resuming command executed at least one instruction; distinct = hash of source and script",
+        "assumptions": DBG_ASSUME,
+    },
+    "C11": {
+        "run": run_dbg,
+        "level": "exploration",
+        "design_ref": "DESIGN.md section 4 C11",
+        "level_text": "Two independent monitors per session: (1) lockstep reference model (pause positions, sorted duplicate-free breakpoint list at every prompt, .break -> address from the reference assembler); (2) a trace invariant over the interleaved fetch/prompt event log: an instruction at a breakpointed address is fetched only directly after a prompt at that address. Exhaustive scripts up to length 3/4 on loop programs (one- and two-instruction loops, call loops) with locations given absolutely, by label and by PC offset; .break at every placement of generated programs; random sessions.",
+        "level_note": "Breakpoint set in force between two prompts is taken from the real list at the later prompt (bp changes only happen at prompts).",
+        "technique": "runtime monitoring: event-log trace invariant + reference-model lockstep over hooked prompts and fetches",
+        "rule": "case = (program with/without .break, script); non-trivial = some pause happened at a breakpointed address; distinct = hash of source and script",
+        "assumptions": DBG_ASSUME,
+    },
+    "C12": {
+        "run": run_dbg,
+        "level": "exploration",
+        "design_ref": "DESIGN.md section 4 C12",
+        "level_text": "Runtime monitor over histories of executing and mutating commands (move to registers/code/stack area, goto, eval of stores below the origin and into code, program stores) followed by 1-3 resets: the snapshot at the prompt after every reset must equal the load-time machine (all registers, PC, CC, all 65,536 words, taken from the reference loader, not from the debugger's saved copy), and `...; reset; quit` must end like a fresh run (output suffix, exit, final state).",
+        "level_note": "Programs with input traps are excluded (input consumed before the reset cannot be replayed).",
+        "technique": "runtime monitoring: state-equality invariant at hooked prompts + differential final-state check",
+        "rule": "case = (program, mutating history, resets, quit/exit); non-trivial = the machine differed from its load-time state right before a reset; distinct = hash of source and script",
+        "assumptions": DBG_ASSUME,
+    },
+    "C13": {
+        "run": run_dbg,
+        "level": "exploration",
+        "design_ref": "DESIGN.md section 4 C13",
+        "level_text": "Frame-condition monitor: sessions of 120 move/goto/break/inspect commands whose targets sweep the address boundaries (0, origin-1, origin, 0x7FFF, 0x8000, 0xFDFF, 0xFE00, 0xFFFF), labels with offsets up to +-0x8000 and PC offsets whose sum leaves 16 bits, at low, straddling and high origins; after every command the complete machine state and breakpoint list are compared with the reference model (only the named target may change; refused commands change nothing). Thorough: every one of the 65,536 addresses is a move target once.",
+        "level_note": "Offsets not representable in 16 signed bits are rejected by the grammar (no prompt); the monitor checks that they are consumed without effect.",
+        "technique": "runtime monitoring: full-state diff of consecutive prompt snapshots against a reference model (frame conditions)",
+        "rule": "case = one session of 120 commands (evaluations counts commands); distinct = hash of source and script",
+        "assumptions": DBG_ASSUME,
+    },
+    "C16": {
+        "run": run_dbg,
+        "level": "exploration",
+        "design_ref": "DESIGN.md section 4 C16",
+        "level_text": "Bounded-progress monitor (the decidable restatement of the liveness claim): for every session the run-loop iteration count (tick hook) must stay within 2*(instructions executed + commands read + 1) + 8, and a session whose reference model terminates must terminate; non-termination is decided on logical iterations (fuel), never wall clock. Workload: programs that reach PC=0xFFFF by computed jump, PC below the origin, PC >= 0xFE00 or HALT, with every resuming command issued there, followed by end of input.",
+        "level_note": "Unbounded 'eventually terminates' is not decidable by monitoring; the bound is what the property's second sentence states.",
+        "technique": "runtime monitoring: counter invariant over tick/fetch/command hooks with logical fuel",
+        "rule": "case = (program ending outside user space / at 0xFFFF / on HALT, script of resuming commands, EOF); all sessions are non-trivial; distinct = hash of source and script",
+        "assumptions": DBG_ASSUME,
+    },
     "C01": {
         "run": run_c01,
         "level": "exploration",
